@@ -139,7 +139,9 @@ pub fn run(input: &Value) -> Value {
         let scheme = op["scheme"].as_str().unwrap();
         let spec = ModuleSpecifier::parse(&match scheme { "file" => "file:///m.ts".to_string(), "https" | "http" => format!("{scheme}://h/m.ts"), s => format!("{s}:m.ts") }).unwrap();
         let headers = if op["has_header"].as_bool().unwrap() {
-          Some(std::collections::HashMap::from([("content-type".to_string(), "application/typescript; charset=utf-16le".to_string())]))
+          // `label_supported: false` serves a charset label the decoder does not know (the decoder then reports an error)
+          let label = if op["label_supported"].as_bool().unwrap_or(true) { "utf-16le" } else { "utf-32" };
+          Some(std::collections::HashMap::from([("content-type".to_string(), format!("application/typescript; charset={label}"))]))
         } else { None };
         let analyzer = crate::filldeps::EmptyAnalyzer;
         let r = futures::executor::block_on(parse_module(ParseModuleOptions {
@@ -148,7 +150,7 @@ pub fn run(input: &Value) -> Value {
         }));
         match r {
           Ok(m) => json!({"used": if m.source().map(|s| &**s == "a").unwrap_or(false) { "header-charset" } else { "detected-charset" }}),
-          Err(e) => json!({"error": e.to_string()}),
+          Err(_) => json!({"used": "error"}),
         }
       }
       "try_load" => crate::tryload::run_op(op),
